@@ -157,6 +157,8 @@ def gen_trace(r, avoid_known=True):
             continue
         if far and gap_kind > 0.9:
             gap = r.randint(10 ** 4, 3 * 10 ** 6)
+        elif gap_kind > 0.7 and kind != "grid":
+            gap = 0          # several different arrival times inside one tick: each is a batch of its own
         else:
             gap = r.randint(0, 40)
         k = int(t * tps) + gap
